@@ -2,6 +2,7 @@ package main
 
 import (
 	"fmt"
+	"os"
 	"sort"
 	"strings"
 )
@@ -25,8 +26,27 @@ func declinedFor(id string) string {
 	return ""
 }
 
-// runControls analyses the positive-control fixture: every rule must fire on its deliberate violation.
-func runControls(o *RunOpts, r *Report) {}
+// runControls (quick tier): two positive controls per property — known-bad in-memory variants of /repo's current
+// sources (the first two mutants of the property in mutants.json). The rule they target must fire. Results are
+// recorded in the evidence; they say something about the checker, not about /repo, so they never raise a VIOLATION.
+func runControls(o *RunOpts, r *Report) {
+	if o.Tier != "quick" || os.Getenv("VERIF_NO_CONTROLS") != "" {
+		return
+	}
+	oc := runMutantsLimit(o, r, 2)
+	fired := 0
+	for _, m := range oc {
+		if m.Status == "killed" || m.Status == "killed-by-other-rule" {
+			fired++
+		}
+	}
+	r.Extra["positive_controls"] = oc
+	r.Extra["positive_controls_fired"] = fired
+	r.Extra["positive_controls_total"] = len(oc)
+	if len(oc) > 0 {
+		fmt.Printf("positive controls: %d of %d known-bad variants reported\n", fired, len(oc))
+	}
+}
 
 // thorough adds configurations, the CHA superset and mutation self-validation.
 func thorough(o *RunOpts, p *Prog, r *Report, fn ruleFn) {
